@@ -759,6 +759,11 @@ class Message:
                 raise error.MalformedUrlError(
                     "Percent encoded strings in CoAP URI hosts need to be UTF-8 encoded"
                 ) from e
+        else:
+            # Like path and query, the host is replaced, not merged: a
+            # Uri-Host left over from an earlier URI would name a different
+            # resource than the URI just set.
+            self.opt.uri_host = None
 
     # Deprecated accessors to moved functionality
 
